@@ -63,6 +63,14 @@ func (fv *FV) term(st *State, v SymVal, t types.Type) Term {
 			return v.Ref
 		}
 	}
+	if v.K == VCellPtr && len(v.Path) == 0 && v.Idx == nil && v.Root != nil {
+		if _, isStruct := v.Root.Underlying().(*types.Struct); isStruct && fv.structSortName(v.Root) == "" {
+			// address of a local of opaque (non-repo) struct type, e.g. bytes.Buffer: a stable pseudo reference
+			name := fmt.Sprintf("pv_localref_%d_%s", v.Cell.Frame, smtName(v.Cell.A.Name()))
+			fv.decls.Add(1, name, fmt.Sprintf("(declare-const %s Int)\n(assert (< %s 0))", name, name))
+			return Term{S: name, Sort: SInt, T: t}
+		}
+	}
 	fv.outsidef("address of local/field used as a value in %s", st.frame.Fn.Name())
 	return fv.freshConst(st, "addr", SInt, t)
 }
@@ -135,7 +143,13 @@ func (fv *FV) load(st *State, p SymVal, elemT types.Type, pos token.Pos) SymVal 
 		return tv(r)
 	case VElemPtr:
 		es := fv.sliceElems[p.Sl.Sort]
-		return tv(Term{S: fmt.Sprintf("(select (%s_arr %s) %s)", p.Sl.Sort, p.Sl.S, p.Idx.S), Sort: es, T: elemT})
+		r := Term{S: fmt.Sprintf("(select (%s_arr %s) %s)", p.Sl.Sort, p.Sl.S, p.Idx.S), Sort: es, T: elemT}
+		if _, isP := elemT.Underlying().(*types.Pointer); isP {
+			r = fv.def(st, "el", r)
+			st.assume(fv.isAlloc(st.heap, st.epoch, r))
+			fv.assumeTypeInv(st, r, elemT)
+		}
+		return tv(r)
 	case VGlobalPtr:
 		g := p.Global
 		el := g.Type().(*types.Pointer).Elem()
@@ -176,6 +190,9 @@ func (fv *FV) heapLoadPath(st *State, ref Term, root types.Type, path []int) Ter
 	cur.T = ft
 	for _, idx := range path[1:] {
 		cur = fv.structGet(cur, cur.T, idx)
+	}
+	if _, isSl := cur.T.Underlying().(*types.Slice); isSl {
+		st.assume(Term{S: fmt.Sprintf("(>= (%s_len %s) 0)", cur.Sort, cur.S), Sort: SBool})
 	}
 	if _, isP := cur.T.Underlying().(*types.Pointer); isP {
 		// refs read from the heap are allocated
@@ -335,8 +352,19 @@ func (fv *FV) step(st *State) (*State, []*State) {
 		if c.S == "false" {
 			return fv.enterBlock(st, fr.Block, fr.Block.Succs[1]), nil
 		}
+		if known, ok := st.facts[c.S]; ok {
+			if known {
+				return fv.enterBlock(st, fr.Block, fr.Block.Succs[0]), nil
+			}
+			return fv.enterBlock(st, fr.Block, fr.Block.Succs[1]), nil
+		}
+		if st.facts == nil {
+			st.facts = map[string]bool{}
+		}
 		other := st.clone()
 		blk := fr.Block
+		st.facts[c.S] = true
+		other.facts[c.S] = false
 		st.assume(c)
 		st.path += "T"
 		other.assume(tNot(c))
@@ -376,7 +404,11 @@ func (fv *FV) step(st *State) (*State, []*State) {
 		v := fv.vterm(st, x.X)
 		fv.setReg(st, x, tv(fv.def(st, "mi", fv.box(v, x.X.Type()))))
 	case *ssa.ChangeInterface:
-		fv.setReg(st, x, fv.val(st, x.X))
+		cv := fv.val(st, x.X)
+		if cv.K == VTerm && cv.T.Sort == SInt && fv.sortOf(x.Type()) == SVal {
+			cv = tv(fv.box(cv.T, x.X.Type()))
+		}
+		fv.setReg(st, x, cv)
 	case *ssa.ChangeType:
 		v := fv.val(st, x.X)
 		if v.K == VTerm {
@@ -712,7 +744,15 @@ func (fv *FV) typeAssert(st *State, x *ssa.TypeAssert) {
 		// on failure the value is the zero value
 		val := tIte(okc, res, fv.zero(x.AssertedType))
 		val.T = x.AssertedType
-		fv.setReg(st, x, SymVal{K: VTuple, Elems: []SymVal{tv(fv.def(st, "ta", val)), tv(okc)}})
+		tav := fv.def(st, "ta", val)
+		if _, isP := x.AssertedType.Underlying().(*types.Pointer); isP {
+			st.assume(tImp(okc, fv.isAlloc(st.heap, st.epoch, tav)))
+			fv.assumeTypeInvIf(st, okc, tav, x.AssertedType)
+		}
+		if isErrorType(x.AssertedType) {
+			fv.recordErr(st, tav, okc, "assert-error", x.Pos(), true)
+		}
+		fv.setReg(st, x, SymVal{K: VTuple, Elems: []SymVal{tv(tav), tv(okc)}})
 		return
 	}
 	fv.oblige(st, "assert-type", typeShort(x.AssertedType), x.Pos(), ok, "")
